@@ -3,12 +3,17 @@ pub mod common;
 
 pub mod c02;
 pub mod c03;
+pub mod c04;
 pub mod c05;
 pub mod c06;
 pub mod c07;
 pub mod c08;
 pub mod c09;
 pub mod c10;
+pub mod c11;
+pub mod c12;
+pub mod c13;
+pub mod c14;
 pub mod c15;
 pub mod c16;
 
@@ -18,12 +23,17 @@ pub fn get(id: &str) -> Option<Property> {
     match id {
         "C02" => Some(c02::property()),
         "C03" => Some(c03::property()),
+        "C04" => Some(c04::property()),
         "C05" => Some(c05::property()),
         "C06" => Some(c06::property()),
         "C07" => Some(c07::property()),
         "C08" => Some(c08::property()),
         "C09" => Some(c09::property()),
         "C10" => Some(c10::property()),
+        "C11" => Some(c11::property()),
+        "C12" => Some(c12::property()),
+        "C13" => Some(c13::property()),
+        "C14" => Some(c14::property()),
         "C15" => Some(c15::property()),
         "C16" => Some(c16::property()),
         _ => None,
